@@ -120,6 +120,19 @@ def conversation(run, pv, rng, length, threshold, abrupt, label,
             hist.insert(rng.randrange(len(hist) + 1),
                         ('unknown', (uid, body), None))
             run.count('frames_of_exactly_threshold_size')
+        # frames that inflate to the largest sizes a peer may send (2 MiB; 8
+        # MiB from protocol 756 on) - compressible, so small on the wire
+        if threshold is not None and threshold >= 0 and \
+                isinstance(label, int) and label % 5 == 0:
+            limit = 8388608 if ctx.protocol_later_eq(756) else 2097152
+            for size in {limit, limit - 1, 2097152 + 1 if limit > 2097152
+                         else 2097152 // 2}:
+                uid = unknown_ids[0]
+                body = (b'large frame ' * (size // 12 + 1))[
+                    :size - len(rv.encode(uid))]
+                hist.insert(rng.randrange(len(hist) + 1),
+                            ('unknown', (uid, body), None))
+                run.count('frames_inflating_to_megabytes')
     state = {'frames': None, 'login_name': None}
     burst = rng.choice((1, 7, 49, 50, 51, 120, 10 ** 6))
     if abrupt == 'reset':
@@ -832,6 +845,21 @@ def run(run):
                                      % (i, pv, info))
         elif info and len(run.samples) < 3:
             run.sample(info)
+    # directed: conversations containing frames of the largest legal sizes
+    for k, (pv, th) in enumerate(((757, 64), (340, 0), (756, 256), (47, 64),
+                                  (755, 64))):
+        if not run.mine(k):
+            continue
+        outcome = None
+        for attempt in range(3):
+            outcome, info = conversation(run, pv, rng, 6, th, False,
+                                         1000 + 5 * k)
+            if outcome == 'done':
+                break
+        run.case((pv, 6, th, False, 'megabyte-frames', k))
+        if outcome != 'done':
+            run.inconclusive_because('megabyte-frame conversation (pv %d): %s'
+                                     % (pv, info))
     for i in range(60 if thorough else 8):
         if not run.mine(i):
             continue
